@@ -41,19 +41,28 @@ ENCODED = {"'": ["&apos;", "&#39;", "&#x27;", "&#039;", "&amp;apos;", "%27", "\\
 for _q, _encs in ENCODED.items():
     for _e in _encs:
         PAYLOADS += [f"{_e}+str({S}())+{_e}", f"fr{_e} or f != {_e}zz", f"s1{_e} splitters: uid return {_e}pwned{_e} weighted 1 }} /*", f"x{_e}", f"{_e}"]
+# contents that spell a number, a constant or a name (a coercing model turns the literal into another kind of node), and
+# contents that spell a field of the same program (a table keyed by spelling would confuse the two)
+PAYLOADS += ["nan", "inf", "-inf", "12", "1e3", "-1", "0x10", "1_0", "True", "None", "f", "uid", "g", "country", "e", "str", "exp", "__class__", " 12 ", "١٢"]
 PAYLOADS += [f"a&#10;{S}()", f"a%0a{S}()", f"a\\n{S}()", f"a&#13;&#10;{S}()", "&amp;", "&lt;script&gt;", "&#0;", "&#x110000;", "&nbsp;", "%00", "%", "%2", "%%", "$$", "${" + S + "}", "$" + S, "\\$"]
 MARK = "hArMlEsS"
 T, F = ("ret", (("T", "1"),)), ("else", ("ret", (("F", "1"),)))
 
 
-def shapes(v):
+def shapes(v, field=None):
+    """field: the identifier used by the 'fieldname' shape (defaults to v itself; the baseline keeps the identifier and
+    replaces only the literal)"""
     L = ("lit", v)
+    field = v if field is None else field
     yield "salt", ("prog", "e", v, ("uid",), ("ret", (("A", "1"), ("B", "1")))), {"uid": 1}
     yield "group", ("prog", "e", "s", ("uid",), ("ret", ((v, "1"), ("B", "0")))), {"uid": 1}
     yield "right", ("prog", "e", None, ("uid",), ("if", ("cmp", ("id", "f"), "==", L), T, F)), {"uid": 1, "f": v}
     yield "left", ("prog", "e", None, ("uid",), ("if", ("cmp", L, "!=", ("id", "f")), T, F)), {"uid": 1, "f": "q"}
     yield "tuple", ("prog", "e", None, ("uid",), ("if", ("cmp", ("id", "f"), "in", ("tup", (L, ("lit", 1)))), T, F)), {"uid": 1, "f": v}
     yield "pairs", ("prog", "e", None, ("uid",), ("if", ("cmp", ("id", "f"), "in", ("tup", (("tup", (("lit", "name"), L)), ("tup", (("lit", "a"), ("lit", "b")))))), T, F)), {"uid": 1, "f": ("name", v)}
+    if field.isidentifier() and field not in ("uid", "e", "f") and not __import__("keyword").iskeyword(field):
+        # the literal is spelled like a condition field of the same program
+        yield "fieldname", ("prog", "e", None, ("uid",), ("if", ("or", ("cmp", ("id", field), "==", L), ("cmp", L, "==", ("id", "f"))), T, ("elif", ("cmp", ("id", "f"), "in", ("tup", (("id", field), L))), T, F))), {"uid": 1, field: "zz", "f": "yy"}
     yield "nested", ("prog", "e", v, ("uid",), ("if", ("cmp", ("id", "f"), "not in", ("tup", (("tup", (L, ("id", "g"))), L))), T, F)), {"uid": 1, "f": v, "g": 2}
 
 
@@ -139,10 +148,10 @@ def run_profiled(text, env):
 _BASE = {}
 
 
-def baseline(pos, q, expose):
-    key = (pos, q, expose)
+def baseline(pos, q, expose, field=None):
+    key = (pos, q, expose, field if pos == "fieldname" else None)
     if key not in _BASE:
-        for p, a, env in shapes(MARK):
+        for p, a, env in shapes(MARK, field=field if pos == "fieldname" else None):
             if p == pos:
                 text = rp.render(a, quote=q)
                 g = gen_source(text, expose)
@@ -185,7 +194,7 @@ def _work(units):
                         case["before"] = before
                     for expose in (False, True):
                         acc.add("evaluations")
-                        bm, (bout, bseq) = baseline(pos, q, expose)
+                        bm, (bout, bseq) = baseline(pos, q, expose, field=v)
                         if bm is None:
                             acc.violation(dict(case, sub="ast", observed=short(repr(bout), 200), why="the code generated for the harmless program of this shape is not valid Python / could not be generated"))
                             continue
